@@ -18,6 +18,9 @@ import (
 type NameTable struct {
 	Params []string `json:"params"`
 	Locals []string `json:"locals"`
+	// LocalTypes[i] is the type of Locals[i] (first declaration); used to pair renamed locals
+	// with their new names when declarations were also reordered
+	LocalTypes []string `json:"local_types,omitempty"`
 }
 
 // NameBaseline is filled by the driver from baseline_names.json (unit -> names).
@@ -46,6 +49,7 @@ func namesOf(fn *ssa.Function) NameTable {
 				}
 				seen[id.Name] = true
 				t.Locals = append(t.Locals, id.Name)
+				t.LocalTypes = append(t.LocalTypes, types.TypeString(v.Type(), nil))
 			}
 		}
 	}
@@ -63,10 +67,13 @@ func unitName(ct *Contract) string {
 	return ct.Key
 }
 
-// aliasesFor maps names of the recorded table to the names now at the same positions.
+// aliasesFor maps names of the recorded table to the names that now stand for the same
+// variables.  A name that still exists keeps its meaning.  Names that disappeared are paired,
+// in declaration order, with the new names of the same type (so a renaming survives a
+// reordering of declarations); without recorded types the pairing is by position.
 func aliasesFor(old, cur NameTable) map[string]string {
 	al := map[string]string{}
-	add := func(a, b []string) {
+	pos := func(a, b []string) {
 		if len(a) != len(b) {
 			return
 		}
@@ -76,8 +83,41 @@ func aliasesFor(old, cur NameTable) map[string]string {
 			}
 		}
 	}
-	add(old.Params, cur.Params)
-	add(old.Locals, cur.Locals)
+	pos(old.Params, cur.Params)
+	if len(old.LocalTypes) != len(old.Locals) || len(cur.LocalTypes) != len(cur.Locals) {
+		pos(old.Locals, cur.Locals)
+		return al
+	}
+	inCur, inOld := map[string]bool{}, map[string]bool{}
+	for _, n := range cur.Locals {
+		inCur[n] = true
+	}
+	for _, n := range old.Locals {
+		inOld[n] = true
+	}
+	gone := map[string][]string{} // type -> old names no longer present
+	for i, n := range old.Locals {
+		if !inCur[n] {
+			gone[old.LocalTypes[i]] = append(gone[old.LocalTypes[i]], n)
+		}
+	}
+	fresh := map[string][]string{} // type -> names that are new
+	for i, n := range cur.Locals {
+		if !inOld[n] {
+			fresh[cur.LocalTypes[i]] = append(fresh[cur.LocalTypes[i]], n)
+		}
+	}
+	for t, g := range gone {
+		f := fresh[t]
+		if len(f) != len(g) {
+			continue // not a pure renaming for this type: leave the names alone
+		}
+		for i := range g {
+			if _, isParam := al[g[i]]; !isParam {
+				al[g[i]] = f[i]
+			}
+		}
+	}
 	return al
 }
 
